@@ -40,6 +40,9 @@ def gen_string(rng):
         if k < 0.12 and n > 1:
             lines.append("")
             feats.add("line.empty")
+        elif k < 0.2 and n > 1:
+            lines.append(rng.choice([" ", "  ", "    ", "\t", " \t "]))      # a line of white space only is not an empty line
+            feats.add("line.whitespace-only")
         else:
             lines.append(" ".join(rng.choice(WORDS) for _ in range(rng.randint(1, 3))))
     if n > 1:
@@ -321,7 +324,7 @@ def check_case(ctx, case):
 def run_shard(ctx):
     acc = ctx.acc
     rng = ctx.rng("text")
-    n = 6000 if ctx.quick() else 200000
+    n = 24000 if ctx.quick() else 500000
     for j in range(n):
         if ctx.out_of_time():
             acc.notes.append("time budget reached after %d cases" % j)
